@@ -4,6 +4,11 @@ import json, sys
 ALL = ["C%02d" % i for i in range(1, 21)]
 # id -> (category, technique, text, note, design_ref)
 CLAIMED = {
+ "C08": ("model_checking",
+         "stateless model checking of the real pipeline code: controlled cooperative scheduler (channels, mutexes, pools, spawns rewritten onto it by a go/types-driven source rewriter), DFS over all choice sequences with iterative preemption bounding and state-key pruning; deadlock/leak/runaway/poison/order monitors on every execution",
+         "Each closed scenario (writer call sequences incl. Flush, buffer-full hand-off, ReadFrom, reuse, OnBlockDone, sink failing at every call k; reader scenarios incl. corrupt block j, source failing at call k, checksum mismatch, missing end mark, legacy, reuse) is explored over every interleaving within the preemption bound (quick 2, fault families 1; thorough 3/2). A call that would block forever is a deadlock state, a goroutine left blocked is a leak state; released buffers are poisoned and audited; sink bytes must equal the sequential run's.",
+         "Code between two visible operations runs atomically, so raw data races are seen only through their effects in some explored schedule. Bound on preemptions, blocks (<=3) and concurrency (<=3). The explorer must find a planted lost update and pass a locked counter on every run (self-test).",
+         "DESIGN.md §2.2, §4 C08"),
  "C01": ("exploration",
          "bounded-exhaustive input enumeration (all strings over tiny alphabets up to a length bound, periodic sources, window-distance grid, large sources) x compressor configurations, decoded by an independent reference decoder and both real decoders",
          "Every enumerated source is compressed by every compressor configuration (fast / HC at several depths; package function, fresh and reused object) into a destination of exactly the bound and of bound+7 with spare capacity, and the block is decoded by ref.Decode, UncompressBlock and the portable decoder. Exhaustive within the stated alphabets and grids.",
